@@ -48,7 +48,14 @@ def make_case(seed, shard, i):
     if not any(len(x) for x in rows):
         rows.append(["1", "2", "x", "y"])
     policy = r.choice([["collect", "print"], ["collect", "print"], ["collect", "stop", "fail", "print"], ["collect", "fail"]])
-    return {"members": members, "rows": rows, "policy": policy}
+    dialect = None
+    if r.random() < 0.2:
+        # a file in another dialect (CsvPaths(delimiter=..., quotechar=...)), with cells that need quoting
+        dialect = r.choice([{"delimiter": ";", "quotechar": "'"}, {"delimiter": ",", "quotechar": "'"}, {"delimiter": "|", "quotechar": '"'}])
+        for row in rows[1:]:
+            if len(row) > 3 and r.random() < 0.6:
+                row[3] = r.choice(["x" + dialect["delimiter"] + "y", "it" + dialect["quotechar"] + "s", "q"])
+    return {"members": members, "rows": rows, "policy": policy, "dialect": dialect}
 
 
 def member_summary(c, events, lines, printed):
@@ -69,11 +76,11 @@ def member_summary(c, events, lines, printed):
     }
 
 
-def standalone(prog, ident, path, agg, policy):
+def standalone(prog, ident, path, agg, policy, kw=None):
     from vfy import cps, env, hooks
 
     text = cps.member_text(prog, ident=ident).replace("$[", f"${path}[", 1)
-    c, cap = env.new_csvpath(list(policy))
+    c, cap = env.new_csvpath(list(policy), **(kw or {}))
     with hooks.recording(agg) as rec:
         try:
             lines = c.collect(text)
@@ -82,11 +89,11 @@ def standalone(prog, ident, path, agg, policy):
     return member_summary(c, rec.lines, [[str(x) for x in ln] for ln in lines], cap.lines), None
 
 
-def run_group(order, members, method, kw, agg):
+def run_group(order, members, method, kw, agg, dkw=None):
     """-> (per-member summaries in group order, yielded lines, per-line decisions, exception)"""
     from vfy import cps, env, hooks
 
-    cs = env.new_csvpaths()
+    cs = env.new_csvpaths(**(dkw or {}))
     texts = [cps.member_text(members[j], ident=f"m{j}") for j in order]
     cs.paths_manager.add_named_paths(name="grp", paths=texts)
     with hooks.recording(agg) as rec:
@@ -123,12 +130,23 @@ def run_case(case, agg, r):
     cps.reset_sandbox()
     policy = case.get("policy", ["collect", "print"])
     env.write_config(".", csvpath_policy=policy)
-    cs0 = env.new_csvpaths()
-    cps.add_file(cs0, "data", rows)
+    dkw = case.get("dialect") or {}
+    cs0 = env.new_csvpaths(**dkw)
+    if dkw:
+        import csv
+        import io
+
+        b = io.StringIO(newline="")
+        wr = csv.writer(b, lineterminator="\n", **dkw)
+        for row in rows:
+            wr.writerow(row)
+        cps.add_file(cs0, "data", data=b.getvalue().encode("utf-8"))
+    else:
+        cps.add_file(cs0, "data", rows)
     path = cs0.file_manager.get_named_file("data")
     refs = []
     for j, p in enumerate(members):
-        s, err = standalone(p, f"m{j}", path, agg, policy)
+        s, err = standalone(p, f"m{j}", path, agg, policy, dkw)
         if err:
             return "undecided", None
         refs.append(s)
@@ -138,8 +156,8 @@ def run_case(case, agg, r):
     w0 = {"members": [cps.member_text(p, f"m{j}") for j, p in enumerate(members)], "rows": rows, "policy": policy}
     for order in orders:
         for method, kw in [(m, {}) for m in cps.METHODS] + [("next_by_line", {"if_all_agree": True})]:
-            out, lines, decisions, exc = run_group(order, members, method, kw, agg)
-            w = dict(w0, order=list(order), method=method, kw=kw)
+            out, lines, decisions, exc = run_group(order, members, method, kw, agg, dkw)
+            w = dict(w0, order=list(order), method=method, kw=kw, dialect=dkw)
             if exc:
                 w["exc"] = exc
                 return "exception", w
